@@ -10,7 +10,8 @@ rm -rf $wt; git -C /repo worktree prune
 git -C /repo worktree add --detach $wt HEAD >/dev/null 2>&1 || { echo "$name WORKTREE-FAIL"; exit 1; }
 cd $wt
 export CARGO_NET_OFFLINE=true CARGO_TARGET_DIR=$wt/target
-extra=$(python3 - "$d/meta.json" <<'PY'
+mj=$d/meta.json; [ -f $mj ] || mj=$d/agent_meta.json
+extra=$(python3 - "$mj" <<'PY'
 import json,sys,re
 try:
     m=json.load(open(sys.argv[1]))
